@@ -7,6 +7,15 @@ For every <worktree>/out/patchK.diff: apply on the clean scratch worktree, run t
 the scratch tree (VERIF_REPO, VERIF_OUT redirected), undo.  Nothing is applied to /repo."""
 import json, os, shutil, subprocess, sys, tempfile, time
 HERE = os.path.dirname(os.path.abspath(__file__))
+# checks that exercise a source file (directly or through its callers); EQUIV_ALL=1 runs all 20 instead
+FILE_CHECKS = {
+    'periodogram.py': 'C01 C02 C05 C06 C07 C08', 'psd.py': 'C01 C02 C05 C06 C07 C08', 'correlog.py': 'C01 C02 C05 C08',
+    'correlation.py': 'C01 C03 C04 C05 C09 C12 C15', 'burg.py': 'C03 C04 C05 C08 C13 C16', 'yulewalker.py': 'C02 C03 C04 C12',
+    'covar.py': 'C03 C04 C14 C15', 'modcovar.py': 'C02 C03 C04 C14', 'arma.py': 'C02 C03 C04 C05 C08 C15', 'minvar.py': 'C02 C05 C08 C16',
+    'eigenfre.py': 'C02 C03 C05 C17', 'mtm.py': 'C02 C05 C08 C18 C19', 'tools.py': 'C02 C06 C07', 'levinson.py': 'C03 C04 C10 C11 C12',
+    'toeplitz.py': 'C10', 'cholesky.py': 'C10', 'linear_prediction.py': 'C11', 'lpc.py': 'C12', 'linalg.py': 'C09 C14 C17',
+    'window.py': 'C01 C05 C08 C20', 'criteria.py': 'C03 C13 C17', 'mydpss.c': 'C18 C19',
+}
 
 
 def sh(cmd, cwd=None, env=None, timeout=3600):
@@ -16,7 +25,7 @@ def sh(cmd, cwd=None, env=None, timeout=3600):
 
 def main():
     pid, wt = sys.argv[1], sys.argv[2]
-    checks = sys.argv[3:] or ['C%02d' % i for i in range(1, 21)]
+    fixed = sys.argv[3:] or (['C%02d' % i for i in range(1, 21)] if os.environ.get('EQUIV_ALL') else None)
     out = os.path.join(wt, 'out')
     env = dict(os.environ, PYTHONPATH=os.path.join(wt, 'src'), MPLBACKEND='Agg')
     res = []
@@ -30,13 +39,16 @@ def main():
         if rc:
             res.append({'k': k, 'error': 'patch does not apply: ' + o[-300:]})
             continue
-        touches_c = 'mydpss.c' in open(patch).read()
+        ptxt = open(patch).read()
+        touches_c = 'mydpss.c' in ptxt
+        touched = sorted({l.split('/')[-1].strip() for l in ptxt.splitlines() if l.startswith('+++ ')})
+        checks = fixed or sorted({pid} | {c for f in touched for c in FILE_CHECKS.get(f, '').split()})
         if touches_c:
             sh('gcc -O2 -shared -fPIC -o src/spectrum/mydpss.cpython-312-x86_64-linux-gnu.so src/cpp/mydpss.c -lm', cwd=wt)
         rct, ot = sh('/venv/bin/python -m pytest -q -p no:cacheprovider 2>&1 | tail -3', cwd=wt, env=env)
         rce, oe = sh('/venv/bin/python %s' % eq, cwd=out, env=env) if os.path.exists(eq) else (None, 'no equiv program')
         tmp = tempfile.mkdtemp(prefix='verif_equivrun_')
-        cenv = dict(os.environ, VERIF_REPO=wt, VERIF_OUT=tmp)
+        cenv = dict(os.environ, VERIF_REPO=wt, VERIF_OUT=tmp, VERIF_NPROC=os.environ.get('VERIF_NPROC', '6'))
         alarms = {}
         for cid in checks:
             rcq, oq = sh('./check %s --tier quick' % cid, cwd=HERE, env=cenv)
@@ -46,7 +58,7 @@ def main():
         sh('git checkout -- src', cwd=wt)
         if touches_c:
             sh('gcc -O2 -shared -fPIC -o src/spectrum/mydpss.cpython-312-x86_64-linux-gnu.so src/cpp/mydpss.c -lm', cwd=wt)
-        r = {'k': k, 'tests_pass': '165 passed' in ot and 'failed' not in ot, 'equiv_exit': rce, 'alarms': alarms, 'silent': not alarms}
+        r = {'k': k, 'files': touched, 'checks': checks, 'tests_pass': '165 passed' in ot and 'failed' not in ot, 'equiv_exit': rce, 'alarms': alarms, 'silent': not alarms}
         res.append(r)
         print(json.dumps(r)[:1200])
     json.dump(res, open(os.path.join(out, 'equiv_validation.json'), 'w'), indent=1)
